@@ -16,12 +16,14 @@ def jobs(tier):
     ]
     if tier == 'quick':
         return q
+    for j in q:
+        j['timeout'] = 3000  # the thorough tier shares the cores between more jobs
     return q + [
         dict(name='kernel-search-sorted-8', harness='k_kernels.c', entry='main_kernel', defines=dict(KERNEL=6, NA=8), timeout=1200,
              require_tags={'end': 1, 'exact': 1, 'past-end': 1}),
         dict(name='fixed-table-k4', harness=H, entry='main_c06',
              defines=dict(NN=4, NE=4, NS=1, FIXED_TABLE=1, OPTS_LO=1, KOPS=4),
-             timeout=1500, require_tags={'end': 1, 'null': 1, 'nonnull': 1}),
+             timeout=3000, allow_incomplete=True, require_tags={'end': 1, 'null': 1, 'nonnull': 1}),
         dict(name='all-tables-k3', harness=H, entry='main_c06',
              defines=dict(NN=3, NE=2, NS=1, TP_HI=0, SP_LO=1, SP_HI=1, OPTS_LO=1, KOPS=3), timeout=3000, allow_incomplete=True,
              require_tags={'end': 1, 'null': 1, 'nonnull': 1}),
